@@ -17,6 +17,10 @@ fn main() {
         let code = mcmc_verif::props::child_main(&args[1..]);
         std::process::exit(code);
     }
+    if args[0] == "BENCH" {
+        mcmc_verif::props::bench();
+        return;
+    }
     let id = args[0].clone();
     let mut tier = match std::env::var("VERIF_TIER").as_deref() {
         Ok("thorough") => Tier::Thorough,
